@@ -76,3 +76,15 @@ Theorem C02_union_isets_kernel_text_total : forall l,
   exists fuel, run fuel k_jitunion_isets (Jitunion_isets_func.union_args l) = Return (Jitunion_isets_func.iset_arrays (k_union_n l)).
 Proof. exact Jitunion_isets_total.k_jitunion_isets_total. Qed.
 Print Assumptions C02_union_isets_kernel_text_total.
+
+(* TOTAL correctness of jitintersect and jitdiff (Inv/Jitintersect_functotal.v, Inv/Jitdiff_functotal.v). *)
+From Verif Require Inv.Jitintersect_functotal Inv.Jitdiff_functotal.
+Theorem C02_intersect_kernel_text_total : forall A B,
+  exists fuel, run fuel k_jitintersect (Jitintersect_func.iset_args A B) = Return (Jitintersect_func.inter_result (k_inter_meta A B)).
+Proof. exact Jitintersect_functotal.k_jitintersect_total. Qed.
+Print Assumptions C02_intersect_kernel_text_total.
+
+Theorem C02_diff_kernel_text_total : forall A B,
+  exists fuel, run fuel k_jitdiff (Jitintersect_func.iset_args A B) = Return (Jitdiff_func.diff_result (k_diff_meta A B)).
+Proof. exact Jitdiff_functotal.k_jitdiff_total. Qed.
+Print Assumptions C02_diff_kernel_text_total.
